@@ -2481,7 +2481,19 @@ func suiteC19(s *Shard, n int) {
 				ops = append(ops, GenOp{Kind: "call", Call: Call{Name: "nreg", Incr: true, F: fl(r.Coord())}})
 			}
 		}
+		if r.Chance(30) {
+			// a path transform configured earlier on the same Generator is for path data only: the helpers' geometry is in
+			// viewBox coordinates whatever it is (round 5, C19-I: the helpers mapped their arguments through it)
+			ops = append(ops, GenOp{Kind: "xf", Affs: []generate.Aff3{{float32(1+r.Intn(8)) / 4, 0, float32(r.Intn(40) - 20), 0, float32(1+r.Intn(8)) / 4, float32(r.Intn(40) - 20)}}})
+		}
 		h := r.GradHelper()
+		if len(h.Stops) >= 2 && len(h.Stops) < 50 && r.Chance(20) {
+			// a stop given twice in a row (some exporters repeat the last stop) is still a stop given: it is stored and
+			// rendered, and the caller's list is the caller's (round 5, C19-J: dropped, compacting the caller's slice in place)
+			k := r.Intn(len(h.Stops))
+			st := append([]generate.GradientStop(nil), h.Stops[:k+1]...)
+			h.Stops = append(st, h.Stops[k:]...)
+		}
 		ops = append(ops, h)
 		ops = append(ops, GenOp{Kind: "call", Call: Call{Name: "start", F: fl(-32, -32)}}, GenOp{Kind: "call", Call: Call{Name: "L", F: fl(32, -32)}}, GenOp{Kind: "call", Call: Call{Name: "L", F: fl(32, 32)}}, GenOp{Kind: "call", Call: Call{Name: "L", F: fl(-32, 32)}}, GenOp{Kind: "call", Call: Call{Name: "Z"}})
 		line := GenCase(ops)
